@@ -117,6 +117,39 @@ def _leaf_case(ctx, tree, form=None, count=-1):
     _check_obj(ctx, f"typed", make, tree, f"{fmt}/{form}", reuse_with=(fresh, reused))
 
 
+def _integer_range_ends(ctx):
+    """Enumerated: for every integer type the last value inside its range and the first one outside, at both ends, given to the
+    type itself and to a Dynamic restricted to it. Whatever is accepted encodes and reads back as that value."""
+    V = sv.V
+    for fmt in e5ref.INT_FMTS:
+        bits = int(fmt[1:]) * 8
+        lo, hi = (0, 2**bits - 1) if fmt[0] == "U" else (-(2**(bits - 1)), 2**(bits - 1) - 1)
+        for v in (lo - 1, lo, lo + 1, hi - 1, hi, hi + 1):
+            for holder, make in (("typed", lambda: sv.VCLS[fmt](v)), ("dynamic", lambda: V.Dynamic([sv.VCLS[fmt]], v)),
+                                 ("typed-list", lambda: sv.VCLS[fmt]([0, v]))):
+                ctx.count("enumerated.integer_range_ends")
+                ctx.case(("range-end", fmt, v, holder))
+                wit = {"type": fmt, "value": v, "holder": holder, "in_range": lo <= v <= hi}
+                try:
+                    obj = make()
+                except Exception:
+                    if lo <= v <= hi:
+                        ctx.violation(f"value-inside-the-range-rejected:{fmt}", wit)
+                    continue
+                try:
+                    enc = obj.encode()
+                    fresh = sv.VCLS[fmt]()
+                    fresh.decode(enc)
+                    back = fresh.get()
+                except Exception as exc:
+                    ctx.violation(f"accepted-value-does-not-encode:{fmt}:{type(exc).__name__}", {**wit, "error": repr(exc)[:160]})
+                    continue
+                want = [0, v] if holder == "typed-list" else v
+                if back != want:
+                    ctx.violation(f"accepted-value-reads-back-differently:{fmt}", {**wit, "read_back": back})
+    ctx.exhaustive["integer_range_ends"] = True
+
+
 def _accepted_float_cases(ctx, n):
     """Floats given as arbitrary Python doubles to F4 (the class rounds to binary32 on the wire)."""
     rng = ctx.rng
@@ -533,6 +566,8 @@ def run(ctx):
         _empty_items(ctx)
     _dataitem_cases(ctx)
     _big_cases(ctx)
+    if ctx.shard == 0:
+        _integer_range_ends(ctx)
     _accepted_float_cases(ctx, n // 10)
     rng = ctx.rng
     for i in range(n):
